@@ -14,13 +14,16 @@ The model follows the repaired code (findings/C13.json): `getPij()` and
 `getEquilibriumFrequencies()` have one up-to-date flag each; `setTransitionProbabilities` notifies and
 changes nothing when a row is refused; `operator=` copies the simplices.
 
-What is kept of the parameter layer: the object's own copies of the simplex parameters
-(`own`, parameter "<i+1>.theta<k+1>" at `own[i][k]`), `Parameter::setValue` (Parameter.cpp:72: the value is
-stored only when `|v - old| > 0`, after the constraint test), `ParameterList::matchParametersValues`
+What is kept of the parameter layer: `Parameter::setValue` (Parameter.cpp:72: the value is stored only
+when `|v - old| > 0`, after the constraint test), `ParameterList::matchParametersValues`
 (ParameterList.cpp:421-454: all constraints tested first, then the differing values assigned),
 `AbstractParametrizable::setParameterValue` (always notifies) / `matchParametersValues` (notifies when a
-value differed).  Names and namespaces are not modelled (`setNamespace` is not overridden by the
-class: after a call the simplices no longer recognise the parameter names — not exercised).
+value differed).  The object's own parameter list ("<i+1>.theta<k+1>") holds at every point the same
+values and constraints as the lists of the simplices — every update goes through both, with the same
+tests (`setParameterValue`: own list, then `fireParameterChanged` → the simplex; `setTransitionProbabilities`:
+the simplices, then the own list with the values they accepted; copy and assignment copy both) — so the
+model keeps one copy, the simplices'.  Names and namespaces are not modelled (`setNamespace` is not
+overridden by the class: after a call the simplices no longer recognise the parameter names — not exercised).
 -/
 namespace Bpp.Hmm
 open Bpp Bpp.Scalar
@@ -48,10 +51,8 @@ def TMErr.ofSimplex : Simplex.Err → TMErr
 
 structure FullTM (α : Type) where
   n : Nat
-  /-- `vSimplex_` -/
+  /-- `vSimplex_` (their parameter lists are also the values of the object's own parameters) -/
   rows : List (Simplex.St α)
-  /-- the values of this object's own parameters, by row -/
-  own : List (List α)
   /-- `pij_` -/
   pij : List (List α)
   /-- `eqFreq_` -/
@@ -67,7 +68,7 @@ def FullTM.build (n : Nat) : Option (FullTM α) :=
   match Simplex.constructDim (α := α) n 1 false with
   | .error _ => none
   | .ok r => some
-    { n := n, rows := List.replicate n r, own := List.replicate n r.params,
+    { n := n, rows := List.replicate n r,
       pij := List.replicate n (List.replicate n zero), eq := List.replicate n zero,
       upToDate := false, eqUpToDate := false }
 
@@ -100,10 +101,9 @@ def fullEqOf (n : Nat) (p : List (List α)) : Option (List α) :=
 def FullTM.getEq (m : FullTM α) : FullTM α × Option (List α) :=
   if m.eqUpToDate then (m, some m.eq)
   else
-    let (m1, p) := m.getPij
-    match fullEqOf m.n p with
-    | some e => ({ m1 with eq := e, eqUpToDate := true }, some e)
-    | none => (m1, none)
+    match fullEqOf m.n m.getPij.2 with
+    | some e => ({ m.getPij.1 with eq := e, eqUpToDate := true }, some e)
+    | none => (m.getPij.1, none)
 
 /-- `ParameterList::matchParametersValues` of a simplex with a list holding the one parameter
 "theta<k+1>" = `v` (what `fireParameterChanged` passes on after `setParameterValue`) -/
@@ -124,17 +124,17 @@ def FullTM.fireOne (m : FullTM α) (i k : Nat) (v : α) : FullTM α × Option TM
     | .error e => (m, some (.ofSimplex e))
     | .ok r' => ({ m with rows := m.rows.set i r', upToDate := false, eqUpToDate := false }, none)
 
-/-- `setParameterValue("<i+1>.theta<k+1>", v)` (AbstractParametrizable.h:66-70) -/
+/-- `setParameterValue("<i+1>.theta<k+1>", v)` (AbstractParametrizable.h:66-70): `Parameter::setValue` on the
+own parameter (same value and constraint as the simplex's), then `fireParameterChanged` in every case -/
 def FullTM.setTheta (m : FullTM α) (i k : Nat) (v : α) : FullTM α × Option TMErr :=
-  match m.own[i]? with
+  match m.rows[i]? with
   | none => (m, some .notfound)
-  | some θ =>
-    match θ[k]? with
+  | some r =>
+    match r.params[k]? with
     | none => (m, some .notfound)
     | some cur =>
       if gtb (abs (v - cur)) zero then
-        if Simplex.inConstraint false v then
-          ({ m with own := m.own.set i (θ.set k v) }).fireOne i k v
+        if Simplex.inConstraint false v then m.fireOne i k v
         else (m, some .constraint)
       else m.fireOne i k cur
 
@@ -151,6 +151,10 @@ def setRowsLoop : List (Simplex.St α) → List (List α) → Except Simplex.Err
       | .error e => .error e
       | .ok rs' => .ok (r' :: rs')
 
+/-- `matchParametersValues` on the own list found a value that differs: some parameter of some row -/
+def rowsChanged (old new : List (Simplex.St α)) : Bool :=
+  (List.zip old new).any (fun (r, r') => (List.zip r.params r'.params).any (fun (c, v) => !(eqb c v)))
+
 /-- `setTransitionProbabilities(mat)`, `mat` given by rows -/
 def FullTM.setRows (m : FullTM α) (mat : List (List α)) : FullTM α × Option TMErr :=
   if mat.length ≠ m.rows.length then (m, some .bpp)
@@ -158,15 +162,11 @@ def FullTM.setRows (m : FullTM α) (mat : List (List α)) : FullTM α × Option 
     match setRowsLoop m.rows mat with
     | .error e => (m, some (.ofSimplex e))
     | .ok rows' =>
-      -- `matchParametersValues(pl)` on the object's own list: the values are those the simplices accepted
-      let θs := rows'.map (·.params)
-      if !(θs.all (fun θ => θ.all (Simplex.inConstraint false))) then ({ m with rows := rows' }, some .constraint)
-      else
-        let changed := (List.zip m.own.flatten θs.flatten).any (fun (c, v) => !(eqb c v))
-        if changed then
-          -- fireParameterChanged: the simplices already hold these values (nothing to match)
-          ({ m with rows := rows', own := θs, upToDate := false, eqUpToDate := false }, none)
-        else ({ m with rows := rows' }, none)
+      -- `matchParametersValues(pl)` on the object's own list with the values the simplices accepted (same
+      -- constraints: it cannot raise); `fireParameterChanged` if a value differed: the simplices already hold
+      -- these values (nothing to match), both flags are cleared
+      if rowsChanged m.rows rows' then ({ m with rows := rows', upToDate := false, eqUpToDate := false }, none)
+      else ({ m with rows := rows' }, none)
 
 /-! ### the operations, the cached machine and its cache-free specification -/
 
